@@ -17,7 +17,7 @@ LEVEL = "exploration"
 RULE = (
     "programs of 2-3 threads x 1-4 atomic actions (einx call with/without backend argument - 9 built-in calls incl. two signatures of one op, an adapted function with two signatures, a call with a tensor factory, solve_axes, matches, creation and use of a new adapter; enter/exit of a 'with backend' block, einx.backend.get, eager registration of a "
     "synthetic backend, first use of a lazily registered backend after its module appears) on the real global registry; schedules: no preemption, PCT-style 1-3 pre-drawn "
-    "preemption points, random switching, preemption at source lines executed at most twice in the run, (thorough) every single preemption point and every pair inside frontend/backend.py; warm and cold (compile caches cleared) variants; "
+    "preemption points, random switching, preemption at source lines executed at most twice in the run, (thorough) every single preemption point (a sample of 1500 where a program has more); warm and cold (compile caches cleared) variants; "
     "distinct = distinct switch sequences (thread, yield index); non-trivial = schedules with at least one preemption"
 )
 ASSUMPTIONS = [
@@ -349,7 +349,12 @@ def run(spec, out):
             else:
                 plans.append(("first", {1, rng.randrange(1, N + 1)}, 0.0))
         if spec["systematic"]:
-            for i in range(1, N + 1):
+            # every single preemption point; programs with very many yield points (cold compilations under LINE events) get an evenly drawn
+            # sample of 1500 of them, so that a shard stays within its time limit
+            points = range(1, N + 1) if N <= 1500 else sorted(rng.sample(range(1, N + 1), 1500))
+            out.count("systematic_points", len(points))
+            out.count("systematic_points_available", N)
+            for i in points:
                 plans.append(("single", {i}, 0.0))
         for si, (mode, pts, prob) in enumerate(plans):
             sc = T.Sched(rng.randrange(1 << 30), tids, switch_points=pts, switch_prob=prob)
